@@ -604,6 +604,8 @@ member_st = st.fixed_dictionaries({
     "mut": st.sampled_from(["same", "same", "same", "unit", "one", "some", "all", "one_comp", "unit_one", "unit_raw"]),
     "where": st.integers(0, 5),
     "dtype": st.sampled_from(["float64", "float64", "int64", "float32"]),
+    # the second group's member holds the same numbers in another storage type (equality is by content)
+    "dtype2": st.sampled_from([None, None, None, "float32", "int32", "int64", "float64", "int16"]),
     # all numbers scaled by 2**scale_exp (exact): tiny values, where an absolute tolerance would hide differences
     "scale_exp": st.sampled_from([0, 0, 0, -40, -70]),
 })
@@ -663,17 +665,18 @@ def _eq_build(case):
             if u_other != u_self:
                 unit_differs = True
         dt = np.dtype(m["dtype"])
+        dt2 = np.dtype(m.get("dtype2") or m["dtype"])
 
-        scale = 2.0 ** m.get("scale_exp", 0) if dt.kind == "f" else 1.0
-        if dt == np.float32 and m.get("scale_exp", 0) < -40:
+        scale = 2.0 ** m.get("scale_exp", 0) if (dt.kind == "f" and dt2.kind == "f") else 1.0
+        if scale != 1.0 and np.float32 in (dt, dt2) and m.get("scale_exp", 0) < -40:
             scale = 2.0 ** -40
 
-        def mk(comps, unit):
+        def mk(comps, unit, dt):
             arrs = [osyris.Array(values=c.astype(dt) * dt.type(scale) if scale != 1.0 else c.astype(dt), unit=unit)
                     for c in comps]
             return arrs[0] if m["kind"] == "A" else osyris.Vector(*arrs)
-        g1[key] = mk(comps1, u_self)
-        g2[key] = mk(comps2, unit2)
+        g1[key] = mk(comps1, u_self, dt)
+        g2[key] = mk(comps2, unit2, dt2)
     same_keys = True
     km = case["keymut"]
     if km == "reorder" and len(g2) > 1:
@@ -717,6 +720,8 @@ def dg_equality(case, r):
     r.label("expect_equal" if expect else "expect_unequal")
     if unit_differs:
         r.label("unit_differs")
+    if any(m.get("dtype2") and m["dtype2"] != m["dtype"] for m in case["members"][: len(case["keys"])]):
+        r.label("storage_types_differ")
     r.nontrivial((same_keys and not all_equal) or (expect and unit_differs))
     if bool(got) != expect:
         kind = "equal-groups-compare-unequal" if expect else (
